@@ -122,8 +122,10 @@ Proof. exact converge. Qed.
 Print Assumptions c06_converge.
 
 (* never caught-up while lacking acknowledged commands: l1 = the leader's log when the follower (in ANY
-   state) (re)connects; during that session the caught-up flag implies that the follower's log starts
-   with all of l1 and its dataset is the replay of its log *)
+   state) (re)connects; kept = f_file (connect ...) = what it keeps of its own log (a record prefix of l1 whose
+   replay is its dataset at that moment: c06_connect_in_step).  Whatever happens during the session -
+   deliveries, pauses, leader writes, records the follower's OWN sweeper appends to its log (EOwn) - the
+   caught-up flag implies that every record of l1 beyond kept has been handed to the follower (s_done) *)
 Theorem c06_not_premature :
   forall digest md5 digest_eqb,
   (forall a b, digest_eqb a b = true <-> a = b) ->
@@ -132,12 +134,11 @@ Theorem c06_not_premature :
   forall st st0 app (okrec : record -> Prop),
   (forall (a b : record) x y, okrec a -> okrec b -> a ++ x = b ++ y -> a = b) ->
   forall l1 f1 es,
-  upd_ok st st0 app l1 -> oklog okrec l1 -> wf_fol st st0 app okrec f1 ->
-  Forall session_event es ->
-  ok_trace digest md5 digest_eqb csz st st0 app okrec (step digest md5 digest_eqb csz st st0 app Repaired (l1, f1) EConnect) es ->
+  oklog okrec l1 -> wf_fol st st0 app okrec f1 -> Forall session_event es ->
   forall l f, run digest md5 digest_eqb csz st st0 app Repaired (step digest md5 digest_eqb csz st st0 app Repaired (l1, f1) EConnect) es = (l, f) ->
   f_cup f = true ->
-  exists extra, f_file f = l1 ++ extra /\ f_mem f = replay st st0 app (f_file f).
+  exists s extra, f_ses f = Some s /\
+    f_file (connect digest md5 digest_eqb csz st st0 app Repaired l1 f1) ++ s_done s = l1 ++ extra.
 Proof. exact not_premature. Qed.
 Print Assumptions c06_not_premature.
 
@@ -229,6 +230,20 @@ Theorem c06_pinned_intact_at_boundary_refuted :
                  fst (check_some bytes idm bytes_eqb 4 Repaired f (flen f) (f ++ rest)) = CSTruncate 4 1.
 Proof. exists [[1;7;1;5]; [4;7]]%N, [[1;7;3;7]]%N. vm_compute. repeat split. Qed.
 Print Assumptions c06_pinned_intact_at_boundary_refuted.
+
+(* ---- commit "follow-start-over" alone (mode Fixed1): caught up is decided by the size of the follower's OWN
+        log.  A record the follower's own expiry sweeper appends during the catch-up (EOwn: DEL 7 1, 3 bytes) makes
+        it report caught up before the leader's last record (DROP 8, 2 bytes) has been handed over; repaired by
+        proposed_fixes/C06-caught-up-by-stream-position.diff (same trace, mode Repaired: flag off) ---- *)
+Theorem c06_fixed1_own_expiry_premature_refuted :
+  exists l f0 es, Forall session_event es /\
+    (let f := snd (trun Fixed1 c_checksumsz (l, f0) (EConnect :: es)) in f_cup f = true /\ drained f = false) /\
+    (let f := snd (trun Repaired c_checksumsz (l, f0) (EConnect :: es)) in f_cup f = false).
+Proof.
+  exists [[1;7;1;5]; [1;8;1;5]; [1;8;2;5]; [4;8]]%N, (mk [] 0), [EDeliver; EOwn [2;7;1]%N; EDeliver; EDeliver].
+  split; [repeat constructor|]. vm_compute. repeat split.
+Qed.
+Print Assumptions c06_fixed1_own_expiry_premature_refuted.
 
 (* ---- commit "follow-start-over" alone (mode Fixed1): the search compares only some blocks.  Two logs of
         equal length that differ in a block that is not probed are declared "fully intact" (checksumsz scaled
